@@ -9,6 +9,12 @@ use std::collections::HashSet;
 
 use super::field_extractor::extract_field_content;
 
+/// Every option letter a field tag can carry (`:50G:`, `:50H:`, `:25P:`, ...)
+const OPTION_LETTERS: [&str; 26] = [
+    "A", "B", "C", "D", "E", "F", "G", "H", "I", "J", "K", "L", "M", "N", "O", "P", "Q", "R", "S",
+    "T", "U", "V", "W", "X", "Y", "Z",
+];
+
 /// Message parser that tracks position while parsing SWIFT messages
 #[derive(Debug)]
 pub struct MessageParser<'a> {
@@ -118,8 +124,13 @@ impl<'a> MessageParser<'a> {
         let full_tag = format!("{}{}", base_tag, variant);
         let field_content = self.extract_field(&full_tag, false)?;
 
-        // Use parse_with_variant for enum fields
-        T::parse_with_variant(&field_content, Some(&variant), Some(base_tag)).map_err(|e| {
+        // Use parse_with_variant for enum fields (no option letter => None)
+        let variant_opt = if variant.is_empty() {
+            None
+        } else {
+            Some(variant.as_str())
+        };
+        T::parse_with_variant(&field_content, variant_opt, Some(base_tag)).map_err(|e| {
             ParseError::InvalidFieldFormat(Box::new(InvalidFieldFormatError {
                 field_tag: full_tag,
                 component_name: "field".to_string(),
@@ -140,7 +151,12 @@ impl<'a> MessageParser<'a> {
             Some(variant) => {
                 let full_tag = format!("{}{}", base_tag, variant);
                 if let Ok(content) = self.extract_field(&full_tag, true) {
-                    let parsed = T::parse_with_variant(&content, Some(&variant), Some(base_tag))
+                    let variant_opt = if variant.is_empty() {
+                        None
+                    } else {
+                        Some(variant.as_str())
+                    };
+                    let parsed = T::parse_with_variant(&content, variant_opt, Some(base_tag))
                         .map_err(|e| {
                             ParseError::InvalidFieldFormat(Box::new(InvalidFieldFormatError {
                                 field_tag: full_tag,
@@ -208,7 +224,7 @@ impl<'a> MessageParser<'a> {
     /// Detect which variant is present for an enum field
     fn detect_variant(&self, base_tag: &str) -> Result<String, ParseError> {
         // Look for common variants in order of preference
-        let common_variants = vec!["A", "B", "C", "D", "F", "K", "L"];
+        let common_variants = OPTION_LETTERS;
 
         // Get the remaining input
         let remaining = &self.input[self.position..];
@@ -239,7 +255,7 @@ impl<'a> MessageParser<'a> {
     /// Detect variant for optional fields
     pub fn detect_variant_optional(&self, base_tag: &str) -> Option<String> {
         // Look for common variants
-        let common_variants = vec!["A", "B", "C", "D", "F", "K", "L"];
+        let common_variants = OPTION_LETTERS;
 
         // Get the remaining input
         let remaining = &self.input[self.position..];
